@@ -487,11 +487,21 @@ class InstanceValue(Object):
                     # returns (class C(func)) need not have an attribute table
                     attrs.update(getattr(o, '_attrs', None) or {})
             attrs.update(self.cls._attrs)
-            attrs.update(self._assigned)
+            # a property with a setter is a data descriptor: it wins over
+            # the instance, `self.x = ...` goes through it
+            attrs.update((k, v) for k, v in iteritems(self._assigned)
+                         if not is_data_descriptor(attrs.get(k)))
         except BaseException:
             del self.__dict__['_attrs']
             raise
         return attrs
+
+
+def is_data_descriptor(name):
+    # type: (t.Any) -> bool
+    """A function of a class body decorated with @<property>.setter/.deleter"""
+    return any(getattr(d, 'attr', None) in ('setter', 'deleter')
+               for d in getattr(name, 'decorator_list', None) or ())
 
 
 class AttrObject(Object):
